@@ -201,7 +201,12 @@ pub fn operation(p: &mut Parser<'_>, mut skip: Skip) -> Result<Option<Skip>> {
 
         let (priority, operator, extra, cur_skip) = match op(p) {
             Some(out) => out,
-            None => break,
+            None => {
+                // The skip handed to the operand has been consumed by now,
+                // report what follows the last operand instead.
+                skip = p.count_skip();
+                break;
+            }
         };
 
         if std::mem::take(&mut first) {
